@@ -15,7 +15,7 @@ git -C /repo worktree add -q --detach $wt HEAD || exit 2
 cleanup() { git -C /repo worktree remove --force $wt 2>/dev/null; rm -rf $wt; }
 trap cleanup EXIT
 cd $wt
-if ! git apply --check $src/patch.diff 2>/dev/null; then echo "$id-$k: PATCH DOES NOT APPLY"; exit 3; fi
+if ! git apply --check $src/patch.diff 2>/dev/null && ! git apply -3 --check $src/patch.diff 2>/dev/null; then echo "$id-$k: PATCH DOES NOT APPLY"; exit 3; fi
 placement=$(python3 -c "import json;print(json.load(open('$src/meta.json')).get('demo_placement','.'))" 2>/dev/null | awk '{print $1}')
 [ -d "$wt/$placement" ] || placement=.
 demo_status() { # returns pass/fail/none
@@ -28,28 +28,30 @@ demo_status() { # returns pass/fail/none
   else echo none; fi
 }
 clean=$(demo_status clean)
-git apply $src/patch.diff
+git apply $src/patch.diff 2>/dev/null || git apply -3 $src/patch.diff >/dev/null 2>&1 || { echo "$id-$k: PATCH DOES NOT APPLY"; exit 3; }
 if ! go build ./... 2>/tmp/seedeval/$id-$k.build; then echo "$id-$k: DOES NOT BUILD"; exit 3; fi
 if ! go test -vet=off -count=1 ./... >/tmp/seedeval/$id-$k.tests 2>&1; then echo "$id-$k: EXISTING TESTS FAIL WITH PATCH"; tail -5 /tmp/seedeval/$id-$k.tests; exit 3; fi
 patched=$(demo_status patched)
 echo "$id-$k: applies, builds, existing tests pass; demonstration: clean=$clean patched=$patched"
-out=$(cd /verif && VERIF_EVIDENCE_DIR=/tmp/seedeval-evidence VERIF_REPO=$wt ./check $id $tier 2>&1); rc=$?
+chk=${CHECK_ID:-$id}   # CHECK_ID: the change breaks (also) another property whose check is the one that reports it
+out=$(cd /verif && VERIF_EVIDENCE_DIR=/tmp/seedeval-evidence VERIF_REPO=$wt ./check $chk $tier 2>&1); rc=$?
 first=$(echo "$out" | grep -E '^violation' | head -1 | cut -c1-400)
-echo "$id-$k: check $id $tier rc=$rc :: $first"
+echo "$id-$k: check $chk $tier rc=$rc :: $first"
 echo "$out" | tail -1 | cut -c1-200
 echo "$out" > /tmp/seedeval/$id-$k.check
 if [ "$clean" = pass ] && [ "$patched" = fail ] && [ -d /tmp/seed/$id-out/$k ]; then
   d=/verif/seeded/$id-$k; mkdir -p $d
   cp $src/patch.diff $d/; for f in demo_test.go demo.sh; do [ -f $src/$f ] && cp $src/$f $d/; done
-  python3 - "$src/meta.json" "$d/meta.json" "$id" "$tier" "$rc" "$first" "$extra" <<'PY'
+  python3 - "$src/meta.json" "$d/meta.json" "$id" "$tier" "$rc" "$first" "$extra" "$chk" <<'PY'
 import json,sys
-src,dst,pid,tier,rc,first,extra=sys.argv[1:8]
+src,dst,pid,tier,rc,first,extra,chk=sys.argv[1:9]
 try: m=json.load(open(src))
 except Exception: m={}
 m['property']=pid
 m['confirmed_by_me']={'patch_applies_to':'/repo HEAD at evaluation time','builds':True,'existing_tests_pass':True,'demonstration_without_change':'pass','demonstration_with_change':'fail','demo_flags':extra,
   'ran':['tools/seedeval.sh %s %s'%(pid,tier)]}
-m['check_result']={'command':'./check %s %s'%(pid,tier),'exit':int(rc),'caught':int(rc)==1,'first_violation':first}
+m['check_result']={'command':'./check %s %s'%(chk,tier),'exit':int(rc),'caught':int(rc)==1,'first_violation':first}
+if chk!=pid: m['check_result']['caught_by']=chk
 json.dump(m,open(dst,'w'),indent=1)
 PY
 fi
